@@ -721,7 +721,10 @@ pub fn check_axis(a: &AxisIn, checked: &mut [u64; 5]) -> Vec<Verdict> {
             // gutter i lies between track i-1 and track i; the one created with a collapsed auto-fit track is absent
             let want = if collapsed(i - 1) { 0.0 } else { gapv };
             checked[2] += 1;
-            if info.gutters[i] != want {
+            // a percentage gap is resolved against the content box as the implementation rounds it; the oracle recomputes
+            // the content box from the Layout, which may differ in the last place
+            let same = info.gutters[i] == want || (a.gap.0 == 1 && (info.gutters[i] - want).abs() <= want.abs() * 4.0 * f32::EPSILON);
+            if !same {
                 dev_known(format!("gutter {}", i), info.gutters[i], want, &mut out, "gutter");
             }
         }
